@@ -127,9 +127,9 @@ def gen_scenario(rng: Rng, world: dict) -> dict:
         v = os.path.basename(rng.choice(files))
         if rng.chance(0.75):
             # (ENOENT: the file vanished between discovery and processing)
-            sc["plan"] = [{"cls": "open_r", "path": v, "nth": rng.choice([0, 0, 1]), "kind": "err", "errno": rng.choice(["EIO", "EACCES", "ENOENT", "ENOENT"])}]
+            sc["plan"] = [{"cls": "open_r", "path": "/" + v, "nth": rng.choice([0, 0, 1]), "kind": "err", "errno": rng.choice(["EIO", "EACCES", "ENOENT", "ENOENT"])}]
         else:
-            sc["plan"] = [{"cls": "open_r", "path": v, "repeat": True, "kind": "short_read", "bytes": rng.choice([5, 40, 200])}]
+            sc["plan"] = [{"cls": "open_r", "path": "/" + v, "repeat": True, "kind": "short_read", "bytes": rng.choice([5, 40, 200])}]
     return sc
 
 
